@@ -150,6 +150,20 @@ fn norm_sub(s: &str) -> String {
 
 // ------------------------------------------------------------------ oracles on one PURL value
 fn value_oracles<K: Kind>(ck: &mut Ck, p: &GenericPurl<K::T>, builtin: bool, parsed_from: Option<&str>) {
+    if builtin {
+        // Display under width / precision / fill / alternate flags is still the canonical string (the type segment included)
+        if let Ok(s0) = catch_unwind(AssertUnwindSafe(|| p.to_string())) {
+            let flagged = catch_unwind(AssertUnwindSafe(|| (format!("{:6}", p), format!("{:.2}", p), format!("{:<40}", p), format!("{:_^9}", p), format!("{:#}", p), format!("{:>80}", p))));
+            match flagged {
+                Ok((a, b, c, d, e, f)) => {
+                    let ok = a == s0 && b == s0 && c == s0 && d == s0 && e == s0 && f == s0;
+                    ck.req("C03", ok, "Display under formatting flags is not the canonical string");
+                    ck.req("C15", ok || (a.split('/').next() == s0.split('/').next() && b.split('/').next() == s0.split('/').next() && d.split('/').next() == s0.split('/').next()), "the type segment printed under formatting flags is not the type's name");
+                },
+                Err(_) => ck.fail("C06", "Display under formatting flags panics"),
+            }
+        }
+    }
     {
         let c = p.clone();
         ck.req("C19", &c == p && c.cmp(p) == std::cmp::Ordering::Equal && p.qualifiers() == c.qualifiers(), "a PURL is not equal to its own clone");
@@ -1080,6 +1094,10 @@ fn f_oracle(ck: &mut Ck, spec: &str) {
             break;
         }
     }
+    // the same pairs through an iterator whose size_hint is only a lower bound (filter), and through a by-reference iterator
+    let lazy = Qualifiers::try_from_iter(ps.clone().into_iter().filter(|_| true));
+    let exact = Qualifiers::try_from_iter(ps.clone());
+    ck.req("C11", lazy.is_ok() == exact.is_ok() && lazy.as_ref().ok() == exact.as_ref().ok(), "try_from_iter depends on the iterator's size_hint");
     match Qualifiers::try_from_iter(ps.clone()) {
         Err(_) => ck.req("C11", bad, "try_from_iter refuses valid distinct keys"),
         Ok(q) => {
@@ -1194,7 +1212,15 @@ fn n_oracle(ck: &mut Ck, a: &[&str]) {
     if b.parts.namespace.as_str() != wns.unwrap_or("") || b.parts.name.as_str() != wname {
         ck.fail("C18", format!("combined {:?} split into ({:?},{:?}), expected ({:?},{:?})", s, b.parts.namespace, b.parts.name, wns, wname));
     }
-    if let Ok(p) = b.build() {
+    let built = b.build();
+    {
+        let ns_ok = i != 3 || wns.map(|n| n.split('/').any(|x| !x.is_empty())).unwrap_or(false);
+        let should = !wname.is_empty() && ns_ok;
+        if should != built.is_ok() {
+            ck.fail("C18", format!("builder_with_combined_name({}, {:?}).build() {} although name {:?} / namespace {:?} {} the type's rule", t.name(), s, if built.is_ok() { "succeeds" } else { "fails" }, wname, wns, if should { "satisfy" } else { "do not satisfy" }));
+        }
+    }
+    if let Ok(p) = built {
         // C08: the type's name rule applies to what the split put into the name, identically from this entry point
         let rule = match i {
             5 => spec_lower(wname),
@@ -1358,6 +1384,7 @@ fn h_oracle(ck: &mut Ck, a: &[&str]) {
             }
             if last_cs == Some('c') {
                 ck.req("C14", q.contains(&format!("{}={}", h("checksum"), h("a:ff,b:00")).as_str()), "checksum written by the hook not canonicalised");
+                ck.req("C12", q.contains(&format!("{}={}", h("checksum"), h("a:ff,b:00")).as_str()), "a PURL carries a checksum (written by the type's hook) that is not the canonical text");
             }
             if last_cs == Some('m') || last_cs == Some('o') {
                 ck.fail("C14", "malformed checksum written by the hook accepted");
@@ -1532,6 +1559,54 @@ mod probe {
         }
     }
 }
+/// a non-self-describing format in miniature: it can hand out a string when asked for one (deserialize_str / deserialize_string) and nothing else
+#[cfg(feature = "serde")]
+mod noany {
+    use serde::de::{self, Visitor};
+    pub struct StrOnly<'a>(pub &'a str);
+    macro_rules! refuse {
+        ($($m:ident)*) => { $(fn $m<V: Visitor<'de>>(self, _v: V) -> Result<V::Value, Self::Error> { Err(de::Error::custom(concat!(stringify!($m), " is not supported by this format"))) })* };
+    }
+    impl<'de, 'a> de::Deserializer<'de> for StrOnly<'a> {
+        type Error = de::value::Error;
+
+        refuse!(deserialize_any deserialize_bool deserialize_i8 deserialize_i16 deserialize_i32 deserialize_i64 deserialize_u8 deserialize_u16 deserialize_u32 deserialize_u64
+                deserialize_f32 deserialize_f64 deserialize_char deserialize_bytes deserialize_byte_buf deserialize_option deserialize_unit deserialize_seq deserialize_map
+                deserialize_identifier deserialize_ignored_any);
+
+        fn deserialize_str<V: Visitor<'de>>(self, v: V) -> Result<V::Value, Self::Error> {
+            v.visit_str(self.0)
+        }
+
+        fn deserialize_string<V: Visitor<'de>>(self, v: V) -> Result<V::Value, Self::Error> {
+            v.visit_string(self.0.to_string())
+        }
+
+        fn deserialize_unit_struct<V: Visitor<'de>>(self, _n: &'static str, _v: V) -> Result<V::Value, Self::Error> {
+            Err(de::Error::custom("not supported"))
+        }
+
+        fn deserialize_newtype_struct<V: Visitor<'de>>(self, _n: &'static str, _v: V) -> Result<V::Value, Self::Error> {
+            Err(de::Error::custom("not supported"))
+        }
+
+        fn deserialize_tuple<V: Visitor<'de>>(self, _l: usize, _v: V) -> Result<V::Value, Self::Error> {
+            Err(de::Error::custom("not supported"))
+        }
+
+        fn deserialize_tuple_struct<V: Visitor<'de>>(self, _n: &'static str, _l: usize, _v: V) -> Result<V::Value, Self::Error> {
+            Err(de::Error::custom("not supported"))
+        }
+
+        fn deserialize_struct<V: Visitor<'de>>(self, _n: &'static str, _f: &'static [&'static str], _v: V) -> Result<V::Value, Self::Error> {
+            Err(de::Error::custom("not supported"))
+        }
+
+        fn deserialize_enum<V: Visitor<'de>>(self, _n: &'static str, _f: &'static [&'static str], _v: V) -> Result<V::Value, Self::Error> {
+            Err(de::Error::custom("not supported"))
+        }
+    }
+}
 #[cfg(feature = "serde")]
 fn j_oracle(ck: &mut Ck, a: &[&str]) {
     let j = uh(a[2]);
@@ -1569,6 +1644,8 @@ fn j_oracle(ck: &mut Ck, a: &[&str]) {
             let s2 = GenericPurl::<K::T>::deserialize(StringDeserializer::<VE>::new(txt.to_string())).ok();
             let s3 = GenericPurl::<K::T>::deserialize(BorrowedStrDeserializer::<VE>::new(txt)).ok();
             ck.req("C16", s1 == want && s2 == want && s3 == want, "a transient / owned / borrowed string value does not deserialise to what from_str gives");
+            let s4 = GenericPurl::<K::T>::deserialize(noany::StrOnly(txt)).ok();
+            ck.req("C16", s4 == want, "a format that can only hand out strings when asked for one (no deserialize_any) does not deserialise to what from_str gives");
         }
         match v.as_str() {
             None => ck.req("C16", de.is_err(), "a non-string JSON value deserialises to a PURL"),
